@@ -348,6 +348,10 @@ pub fn fault_events(seed: u64, thorough: bool, dir: &str) -> Vec<Value> {
             }
             k += if thorough { 1 } else { 1 + rng.gen_range(0..2 * step) };
         }
+        // (b') bytes after the closing brace: a second document, a stale tail, a stray token - one file is one problem
+        for (nm, tail) in [("second document", text.clone()), ("stale tail", "}]}".to_string()), ("stray number", " 17".to_string()), ("stray brace", "{".to_string())] {
+            out.push(fault_event(id, bi, "append", nm.to_string(), &format!("{}{}", text, tail), "NotJson", dir)); id += 1;
+        }
         // (c) semantic corruptions of one site
         let v: Value = serde_json::from_str(&text).unwrap();
         let mut sem = |name: &str, intended: &str, f: &dyn Fn(&mut Value)| {
